@@ -1,37 +1,45 @@
 package checks
 
 import (
+	"encoding/json"
 	"fmt"
 
+	"github.com/corestario/kyber/sign/tbls"
+	"github.com/lidofinance/dc4bc/fsm/types/requests"
+
+	"verif/mc/oracle"
 	"verif/mc/world"
 )
 
-func init() { Registry["dbg-det"] = dbgDet }
+func init() { Registry["dbg"] = dbg }
 
-func dbgDet(tier string, args []string) int {
+func dbg(tier string, args []string) int {
 	out := world.RealStdout
-	var logs [2][]string
-	for x := 0; x < 2; x++ {
-		w, _ := world.NewWorld(2)
-		_, err := w.RunDKG(2)
-		if err != nil {
-			fmt.Fprintln(out, err)
+	r := newRun("DBG", tier, "exploration")
+	sw := SetupSignWorld(r, 3, 2, 1)
+	k := sw.Workers[0]
+	krs, _ := k.W.Airs[0].M.GetBLSKeyrings()
+	pubPoly := krs[sw.Round].PubPoly
+	for _, tasks := range [][]requests.SigningTask{{taskAlphabet()[1]}, {taskAlphabet()[0], taskAlphabet()[1]}, {{MessageID: "t-bin", File: "ok", Payload: []byte{0xff, 0xfe, 0x00, 0x80}}}} {
+		m := k.W.ProposalMessage(0, sw.Round, "dbgb"+fmt.Sprint(len(tasks))+tasks[0].File, tasks)
+		s1 := k.PostMsg(sw.Init, m, "p")
+		s1, _ = k.DrainEager(s1, nil)
+		ops := k.Pending(s1, 0)
+		fmt.Fprintf(out, "ops=%d state=%s\n", len(ops), k.C.Snapshot(s1.Snap[0]).RoundState(sw.Round))
+		if len(ops) == 0 {
+			continue
 		}
-		for _, m := range w.Board.Log() {
-			logs[x] = append(logs[x], fmt.Sprintf("%s %s %s %x", m.Event, m.SenderAddr, m.RecipientAddr, m.Data))
-		}
-		w.Close()
-	}
-	for i := range logs[0] {
-		if logs[0][i] != logs[1][i] {
-			a, b := logs[0][i], logs[1][i]
-			if len(a) > 150 {
-				a = a[:150]
+		c, apiErr, err := k.OperateOp(s1, 0, ops[0].ID, nil)
+		fmt.Fprintln(out, apiErr, err)
+		pm := c.Log[len(c.Log)-1]
+		var req requests.SigningProposalBatchPartialSignRequests
+		json.Unmarshal(pm.Data, &req)
+		for _, ps := range req.PartialSigns {
+			for _, t := range tasks {
+				if t.MessageID == ps.MessageID {
+					fmt.Fprintf(out, "%s verify=%v\n", ps.MessageID, tbls.Verify(oracle.Suite(), pubPoly, t.Payload, ps.Sign))
+				}
 			}
-			if len(b) > 150 {
-				b = b[:150]
-			}
-			fmt.Fprintf(out, "diff at %d:\n %s\n %s\n", i, a, b)
 		}
 	}
 	return 0
